@@ -9,7 +9,10 @@ VARIABLE n   \* number of operations performed on the (stateless) interceptor
 Cfgs == [custom : BOOLEAN, customle : BOOLEAN, named : 0..2]   \* named: name / tag options absent, first, last - never part of the answer
 \* ctx: the call's context stays live, is cancelled while the wrapped call runs, or has expired - never part of the answer
 Ops == [kind : Kinds, grant : BOOLEAN, err : BOOLEAN, cls : {"success", "ignore", "dropped"}, lecode : {"Unavailable", "Aborted"},
-        ctx : {"live", "cancelled", "expired"}]
+        ctx : {"live", "cancelled", "expired"},
+        \* leerr: what the custom limit-exceeded classifier returns as its error value - a plain error, a gRPC status of
+        \* another code, or an error wrapping one: it supplies the message, never the code (never part of the answer)
+        leerr : {"plain", "status", "wrapped"}]
 
 Init == n = 0
 Next == /\ n < 1
